@@ -800,3 +800,15 @@ Definition key_words (spec : list keycomp) (p : parsed) (profile_out : option by
                      | KProfileOutput => match profile_out with Some o => [o] | None => [] end
                      | KCwd => []
                      end) spec.
+
+(* ------------------------------------------------------------------ the environment of the compiler processes *)
+
+(* std::process::Command: a child inherits the environment of the process that spawns it (here: the SERVER), overlaid
+   with what `.envs(..)` adds, unless `.env_clear()` was called first *)
+Definition envmap := list (bytes * bytes).
+
+Definition env_has (k : bytes) (e : envmap) : bool := existsb (fun kv => bytes_eqb (fst kv) k) e.
+
+Definition child_env (cleared : bool) (server client : envmap) : envmap :=
+  if cleared then client
+  else client ++ filter (fun kv => negb (env_has (fst kv) client)) server.
